@@ -494,7 +494,14 @@ class PackageGenerator:
             for i in range(r.randint(0, 3)):
                 ann = self.pick_type(mod) if r.random() < 0.9 else None
                 init_params.append(("pos", f"init_{i}", ann, None))
-        if self.f("DOCS") and r.random() < 0.85:
+        ctor_only_doc = None
+        if self.f("DOCS") and self.doc_style == "NUMPYDOC" and has_init and r.random() < 0.3:
+            # numpydoc allows documenting a class in its constructor: no class docstring at all, parameters and attributes
+            # are described in the docstring of __init__
+            c_p = [(pn, "", f"Ctor {self.tokens.new('P', cq + '.__init__', pn)}.") for _k, pn, _a, _d in init_params]
+            c_a = [(an, "", f"Attr {self.tokens.new('A', cq, an)}.") for an, _a, _v in attrs]
+            ctor_only_doc = self.doc(inner + "    ", self.desc("F", cq + ".__init__"), c_p, None, c_a)
+        elif self.f("DOCS") and r.random() < 0.85:
             pdocs = [(pn, "", f"Ctor {self.tokens.new('P', cq + '.__init__', pn)}.") for _k, pn, _a, _d in init_params if r.random() < 0.8]
             adocs = []
             if self.doc_style in ("NUMPYDOC", "GOOGLE"):
@@ -511,7 +518,9 @@ class PackageGenerator:
         if has_init:
             sig = ["self"] + [f"{pn}: {ann}" if ann else pn for _k, pn, ann, _d in init_params]
             lines.append(f"{inner}def __init__({', '.join(sig)}) -> None:")
-            if self.f("DOCS") and self.doc_style == "NUMPYDOC" and r.random() < 0.3:
+            if ctor_only_doc is not None:
+                lines.append(ctor_only_doc)
+            elif self.f("DOCS") and self.doc_style == "NUMPYDOC" and r.random() < 0.3:
                 lines.append(self.doc(inner + "    ", self.desc("F", cq + ".__init__")))
             wrote = False
             for _k, pn, ann, _d in init_params:
@@ -546,6 +555,8 @@ class PackageGenerator:
                 if self.f("DOCS") and r.random() < 0.7:
                     lines.append(self.doc(inner + "    ", self.desc("F", f"{cq}.{pn}")))
                 lines.append(f"{inner}    ...")
+                if r.random() < 0.4:
+                    lines += ["", f"{inner}@{pn}.setter", f"{inner}def {pn}(self, new_value: int) -> None:", f"{inner}    pass"]
         if allow_nested and self.f("NESTED_CLASS") and r.random() < 0.5:
             lines.append("")
             nn = r.choice(["Inner", "_HiddenInner", "Nested"])
